@@ -2,7 +2,8 @@
 (* Inbound header validation on a client that decodes header text (header_encoding): every catalogue block  *)
 (* as response HEADERS / trailers on stream 1 and as the request of a PUSH_PROMISE.                          *)
 EXTENDS Scn
-Names == DOMAIN HL
+\* (the sized lists of the catalogue belong to MC_BigC / MC_BigS)
+Names == {n \in DOMAIN HL : BL0[n] < 1000}
 mcRoles == {"c"}
 mcCallsC == {}
 mcCallsS == {}
